@@ -12,10 +12,216 @@ set_option autoImplicit false
 namespace Ovld
 variable (H : Hier)
 
+/-! ### congruence of the branch bodies in their recursive-call parameters -/
+
+theorem any_congr_mem {α : Type} (l : List α) (p q : α → Bool) (h : ∀ a ∈ l, p a = q a) :
+    l.any p = l.any q := by
+  induction l with
+  | nil => rfl
+  | cons a as ih =>
+    simp only [List.any_cons]
+    rw [h a (by simp), ih (fun b hb => h b (by simp [hb]))]
+
+theorem all_congr_mem {α : Type} (l : List α) (p q : α → Bool) (h : ∀ a ∈ l, p a = q a) :
+    l.all p = l.all q := by
+  induction l with
+  | nil => rfl
+  | cons a as ih =>
+    simp only [List.all_cons]
+    rw [h a (by simp), ih (fun b hb => h b (by simp [hb]))]
+
+theorem map_congr_mem {α β : Type} (l : List α) (p q : α → β) (h : ∀ a ∈ l, p a = q a) :
+    l.map p = l.map q := by
+  induction l with
+  | nil => rfl
+  | cons a as ih =>
+    simp only [List.map_cons]
+    rw [h a (by simp), ih (fun b hb => h b (by simp [hb]))]
+
+theorem zipWithT_congr {α : Type} (f g : Ty → Ty → α) : ∀ (as bs : List Ty),
+    (∀ a ∈ as, ∀ b ∈ bs, f a b = g a b) → zipWithT f as bs = zipWithT g as bs := by
+  intro as
+  induction as with
+  | nil => intro bs _; simp [zipWithT]
+  | cons a as ih =>
+    intro bs h
+    cases bs with
+    | nil => simp [zipWithT]
+    | cons b bs =>
+      simp only [zipWithT]
+      rw [h a (by simp) b (by simp),
+        ih bs (fun x hx y hy => h x (by simp [hx]) y (by simp [hy]))]
+
+section congr
+variable (to to' : Ty → Ty → TOrd) (sc sc' : Ty → Ty → Bool)
+
+theorem pyIssub_congr (t1 t2 : Ty)
+    (hsc : ∀ a b : Ty, a.size + b.size < t1.size + t2.size → sc a b = sc' a b) :
+    pyIssub H sc t1 t2 = pyIssub H sc' t1 t2 := by
+  cases t2 with
+  | union ts =>
+    simp only [pyIssub]
+    apply any_congr_mem
+    intro t ht
+    have := Ty.mem_sizeL ht
+    exact hsc t1 t (by simp only [Ty.size]; omega)
+  | inter ts =>
+    simp only [pyIssub]
+    apply all_congr_mem
+    intro t ht
+    have := Ty.mem_sizeL ht
+    exact hsc t1 t (by simp only [Ty.size]; omega)
+  | _ => simp only [pyIssub]
+
+theorem subcNe_congr (t1 t2 : Ty)
+    (hsc : ∀ a b : Ty, a.size + b.size < t1.size + t2.size → sc a b = sc' a b) :
+    subcNe H sc t1 t2 = subcNe H sc' t1 t2 := by
+  cases t2 with
+  | union ts =>
+    simp only [subcNe]
+    apply any_congr_mem
+    intro t ht
+    have := Ty.mem_sizeL ht
+    exact hsc t1 t (by simp only [Ty.size]; omega)
+  | inter ts =>
+    simp only [subcNe]
+    apply all_congr_mem
+    intro t ht
+    have := Ty.mem_sizeL ht
+    exact hsc t1 t (by simp only [Ty.size]; omega)
+  | lit k b =>
+    simp only [subcNe]
+    rw [hsc t1 b (by simp only [Ty.size]; omega)]
+  | prod ps b =>
+    simp only [subcNe]
+    rw [hsc t1 b (by simp only [Ty.size]; omega)]
+  | fdep fn ps b =>
+    simp only [subcNe]
+    rw [hsc t1 b (by simp only [Ty.size]; omega)]
+  | gen o2 a2 =>
+    cases t1 with
+    | gen o1 a1 =>
+      simp only [subcNe]
+      rw [zipWithT_congr sc sc' a1 a2 (fun a ha b hb => by
+        have := Ty.mem_sizeL ha
+        have := Ty.mem_sizeL hb
+        exact hsc a b (by simp only [Ty.size]; omega))]
+    | _ => simp only [subcNe]
+  | cls c2 =>
+    cases t1 <;> simp only [subcNe]
+  | _ => simp only [subcNe]
+
+theorem depHook_congr (self bound other : Ty)
+    (hto : ∀ ob, other.bound? = some ob → to bound ob = to' bound ob)
+    (hsc1 : sc other bound = sc' other bound) (hsc2 : sc bound other = sc' bound other) :
+    depHook to sc self bound other = depHook to' sc' self bound other := by
+  unfold depHook
+  cases hb : other.bound? with
+  | none => simp only [hsc1, hsc2]
+  | some ob => simp only [hto ob hb]
+
+theorem Ty.size_of_bound {t b : Ty} (h : t.bound? = some b) : b.size < t.size := by
+  cases t <;> simp [Ty.bound?] at h <;> (subst h; simp only [Ty.size]; omega)
+
+theorem hook_congr (t1 t2 : Ty)
+    (hto : ∀ a b : Ty, a.size + b.size < t1.size + t2.size → to a b = to' a b)
+    (hsc : ∀ a b : Ty, a.size + b.size < t1.size + t2.size → sc a b = sc' a b) :
+    hook to sc t1 t2 = hook to' sc' t1 t2 := by
+  cases t1 with
+  | union ts =>
+    simp only [hook]
+    rw [map_congr_mem ts _ (fun t => to' t t2) (fun t ht => by
+      have := Ty.mem_sizeL ht
+      exact hto t t2 (by simp only [Ty.size]; omega))]
+  | inter ts =>
+    simp only [hook]
+    rw [map_congr_mem ts _ (fun t => to' t t2) (fun t ht => by
+      have := Ty.mem_sizeL ht
+      exact hto t t2 (by simp only [Ty.size]; omega))]
+  | exactly tg c =>
+    simp only [hook]
+    rw [hto (.cls c) t2 (by simp only [Ty.size]; omega)]
+  | prod ps b =>
+    cases t2 with
+    | prod qs b2 =>
+      simp only [hook]
+      rw [zipWithT_congr to to' ps qs (fun a ha b hb => by
+        have := Ty.mem_sizeL ha
+        have := Ty.mem_sizeL hb
+        exact hto a b (by simp only [Ty.size]; omega))]
+    | _ => simp only [hook]
+  | lit k b =>
+    simp only [hook]
+    rw [depHook_congr to to' sc sc' (.lit k b) b t2
+      (fun ob hob => by
+        have := Ty.size_of_bound hob
+        exact hto b ob (by simp only [Ty.size]; omega))
+      (hsc t2 b (by simp only [Ty.size]; omega))
+      (hsc b t2 (by simp only [Ty.size]; omega))]
+  | fdep fn ps b =>
+    simp only [hook]
+    rw [depHook_congr to to' sc sc' (.fdep fn ps b) b t2
+      (fun ob hob => by
+        have := Ty.size_of_bound hob
+        exact hto b ob (by simp only [Ty.size]; omega))
+      (hsc t2 b (by simp only [Ty.size]; omega))
+      (hsc b t2 (by simp only [Ty.size]; omega))]
+  | _ => simp only [hook]
+
+theorem tstruct_congr (t1 t2 : Ty)
+    (hto : ∀ a b : Ty, a.size + b.size < t1.size + t2.size → to a b = to' a b)
+    (hsc : ∀ a b : Ty, a.size + b.size < t1.size + t2.size → sc a b = sc' a b) :
+    tstruct H to sc t1 t2 = tstruct H to' sc' t1 t2 := by
+  have hpy : ∀ x y : Ty, x.size + y.size = t1.size + t2.size →
+      pyIssub H sc x y = pyIssub H sc' x y := fun x y e =>
+    pyIssub_congr H sc sc' x y (fun a b h => hsc a b (by omega))
+  cases t1 with
+  | gen o1 a1 =>
+    cases t2 with
+    | gen o2 a2 =>
+      simp only [tstruct]
+      rw [hto (.cls o1) (.cls o2) (by simp only [Ty.size]; omega),
+        zipWithT_congr to to' a1 a2 (fun a ha b hb => by
+          have := Ty.mem_sizeL ha
+          have := Ty.mem_sizeL hb
+          exact hto a b (by simp only [Ty.size]; omega))]
+    | _ =>
+      simp only [tstruct]
+      rw [hto (.cls o1) _ (by simp only [Ty.size]; omega)]
+  | _ =>
+    cases t2 with
+    | gen o2 a2 =>
+      simp only [tstruct]
+      rw [hto (.cls o2) _ (by simp only [Ty.size]; omega)]
+    | _ =>
+      simp only [tstruct]
+      rw [hpy _ _ rfl, hpy _ _ (Nat.add_comm _ _)]
+
+end congr
+
 /-- any two fuels above `size t1 + size t2` agree (both functions at once) -/
 theorem fuel_irrelevant : ∀ (f g : Nat) (t1 t2 : Ty), t1.size + t2.size < f → t1.size + t2.size < g →
     tord H f t1 t2 = tord H g t1 t2 ∧ subc H f t1 t2 = subc H g t1 t2 := by
-  sorry
+  intro f
+  induction f with
+  | zero => intro g t1 t2 h; omega
+  | succ f ih =>
+    intro g t1 t2 hf hg
+    cases g with
+    | zero => omega
+    | succ g =>
+      have hto : ∀ a b : Ty, a.size + b.size < t1.size + t2.size → tord H f a b = tord H g a b :=
+        fun a b h => (ih g a b (by omega) (by omega)).1
+      have hsc : ∀ a b : Ty, a.size + b.size < t1.size + t2.size → subc H f a b = subc H g a b :=
+        fun a b h => (ih g a b (by omega) (by omega)).2
+      have h1 := hook_congr (tord H f) (tord H g) (subc H f) (subc H g) t1 t2 hto hsc
+      have h2 := hook_congr (tord H f) (tord H g) (subc H f) (subc H g) t2 t1
+        (fun a b h => hto a b (by omega)) (fun a b h => hsc a b (by omega))
+      have h3 := tstruct_congr H (tord H f) (tord H g) (subc H f) (subc H g) t1 t2 hto hsc
+      have h4 := subcNe_congr H (subc H f) (subc H g) t1 t2 hsc
+      constructor
+      · rw [tord, tord, h1, h2, h3]
+      · rw [subc, subc, h4]
 
 theorem tord_fuel (f : Nat) (t1 t2 : Ty) (h : t1.size + t2.size < f) :
     tord H f t1 t2 = typeorder H t1 t2 :=
